@@ -11,6 +11,7 @@ import (
 	"go/ast"
 	"go/token"
 	"go/types"
+	"os"
 	"strings"
 )
 
@@ -71,6 +72,12 @@ func propC18(p *Prog, r *Report) {
 	})
 	if nObj == nil {
 		r.Undecided("C18.b", kBinarySearch+"#probe-index", p.pos(loop), "probe index assignment not found")
+		return
+	}
+	// the window may be kept as a pair of indices (lo, hi) into the unchanged slice instead of re-slicing it
+	if lo, hi, ok := indexWindow(info, loop); ok {
+		c18IndexWindow(p, r, fi, loop, arrObj, seqObj, nObj, nDef, lo, hi)
+		c18Tail(p, r, fi)
 		return
 	}
 	// C18.b: n = len(arr)/2 evaluated for L = 1..5 must be in [0, L-1]
@@ -250,6 +257,12 @@ func propC18(p *Prog, r *Report) {
 	}
 	r.Tables["search_step_table"] = rows
 	r.Check(good, "C18.a", kBinarySearch+"#step-table", p.pos(loop), fmt.Sprintf("%d rows agree with the specification of one search step", len(rows)), "a step of the snapshot lookup decides wrongly: "+detail)
+	c18Tail(p, r, fi)
+}
+
+// c18Tail: the parts of C18 that do not depend on how the window is represented.
+func c18Tail(p *Prog, r *Report, fi *FuncInfo) {
+	info := fi.Pkg.TypesInfo
 	// nil after the loop
 	nilAfter := false
 	if n := len(fi.Decl.Body.List); n > 0 {
@@ -309,6 +322,33 @@ func propC18(p *Prog, r *Report) {
 			}
 			return true
 		})
+		if !nilSafe {
+			// or an unsuccessful search is tested for: with the search yielding nil, LastBefore (helpers inlined)
+			// reaches a return of the zero version without dereferencing the result
+			fin := p.FlatInlExcept(lb, kBinarySearch)
+			env := &Env{P: p, Pkg: lb.Pkg, Vars: map[types.Object]*Val{}}
+			env.Vars[recv] = &Val{Ptr: &Val{Fields: map[string]*Val{"arr": {Tag: "arr"}}}}
+			env.Hook = func(env *Env, e ast.Expr) (*Val, bool) {
+				if c, ok := e.(*ast.CallExpr); ok {
+					if id, ok := c.Fun.(*ast.Ident); ok && id.Name == "len" && len(c.Args) == 1 {
+						return intVal(1), true
+					}
+					if p.callIs(env.Pkg, c, kBinarySearch) {
+						return &Val{Nil: true}, true
+					}
+				}
+				return nil, false
+			}
+			if _, exit, err := fin.WalkPath(env); err == nil {
+				if rs := fin.returnStmt(exit); rs != nil && len(rs.Results) == 1 {
+					if cl, ok := ast.Unparen(rs.Results[0]).(*ast.CompositeLit); ok && len(cl.Elts) == 0 {
+						nilSafe = true
+					}
+				}
+			} else if os.Getenv("FSDBCHECK_DEBUG") != "" {
+				fmt.Fprintln(os.Stderr, "C18.c nil-search evaluation:", err)
+			}
+		}
 		r.Check(okAll && nilSafe, "C18.c", kLastBefore+"#empty-cases", p.pos(lb.Decl), "zero version for nil store, empty mirror, nil search result", "LastBefore does not yield the zero (not-found) version for a nil store, an empty mirror or an unsuccessful search: it panics or returns a stale version")
 	} else {
 		r.Undecided("C18.c", kLastBefore, "", "LastBefore not found")
@@ -331,4 +371,189 @@ func isNPlus1(info *types.Info, e ast.Expr, nObj types.Object) bool {
 	}
 	v, ok := constInt(info, be.Y)
 	return ok && v == 1
+}
+
+// indexWindow recognises a search loop whose window is a pair of integer variables: for lo < hi { ... }.
+func indexWindow(info *types.Info, loop *ast.ForStmt) (lo, hi types.Object, ok bool) {
+	be, isB := ast.Unparen(loop.Cond).(*ast.BinaryExpr)
+	if !isB {
+		return nil, nil, false
+	}
+	isInt := func(o types.Object) bool {
+		if o == nil {
+			return false
+		}
+		bt, ok := o.Type().Underlying().(*types.Basic)
+		return ok && bt.Info()&types.IsInteger != 0
+	}
+	a, b := objOf(info, be.X), objOf(info, be.Y)
+	if !isInt(a) || !isInt(b) {
+		return nil, nil, false
+	}
+	switch be.Op {
+	case token.LSS, token.NEQ:
+		return a, b, true
+	case token.GTR:
+		return b, a, true
+	}
+	return nil, nil, false
+}
+
+// c18IndexWindow decides C18.a/b for a search that keeps its window as indices [lo, hi) into the slice: loop
+// condition, probe position and the single-step decision table are evaluated over small windows exactly as for the
+// re-slicing form; a step is read off the new values of lo and hi.
+func c18IndexWindow(p *Prog, r *Report, fi *FuncInfo, loop *ast.ForStmt, arrObj, seqObj, nObj types.Object, nDef ast.Expr, loObj, hiObj types.Object) {
+	info := fi.Pkg.TypesInfo
+	// probe position: inside the window and in its middle, for every window up to size 5
+	okN := true
+	for lo := int64(0); lo <= 2; lo++ {
+		for size := int64(1); size <= 5; size++ {
+			hi := lo + size
+			env := &Env{P: p, Pkg: fi.Pkg, Vars: map[types.Object]*Val{loObj: intVal(lo), hiObj: intVal(hi)}}
+			v, err := env.Eval(nDef)
+			if err != nil || v.C == nil {
+				r.Undecided("C18.b", kBinarySearch+"#probe-index", p.pos(nDef), fmt.Sprintf("probe index not evaluable: %v", err))
+				return
+			}
+			if sv := v.C.ExactString(); sv != fmt.Sprint(lo+size/2) && sv != fmt.Sprint(lo+(size-1)/2) {
+				okN = false
+			}
+		}
+	}
+	r.Check(okN, "C18.b", kBinarySearch+"#probe-index", p.pos(nDef), "probe index is the middle of the window", "the probe index is not the middle of the current window [lo, hi): it can leave the window")
+	condOK := true
+	for _, w := range [][2]int64{{0, 0}, {0, 1}, {2, 2}, {2, 5}} {
+		env := &Env{P: p, Pkg: fi.Pkg, Vars: map[types.Object]*Val{loObj: intVal(w[0]), hiObj: intVal(w[1])}}
+		v, err := env.Eval(loop.Cond)
+		if err != nil || v.C == nil || (v.C.ExactString() == "true") != (w[0] < w[1]) {
+			condOK = false
+		}
+	}
+	r.Check(condOK, "C18.b", kBinarySearch+"#loop-condition", p.pos(loop.Cond), "searches while the window is non-empty", "the search loop does not run exactly while the window is non-empty")
+	// initial window: the whole slice
+	body := p.NewFlat(fi.Pkg, loop.Body)
+	type row struct {
+		AtN, AtN1 string
+		Last      bool
+		Action    string
+	}
+	var rows []row
+	good := true
+	detail := ""
+	const probe = 5
+	for _, a := range []int64{3, 5, 7} {
+		for _, b := range []int64{3, 5, 7} {
+			for _, last := range []bool{true, false} {
+				if b < a {
+					continue
+				}
+				lo, hi := int64(2), int64(7) // mid = 4, not the last index of the window
+				if last {
+					lo, hi = 4, 5 // mid = 4 = hi-1
+				}
+				const mid = 4
+				env := &Env{P: p, Pkg: fi.Pkg, Vars: map[types.Object]*Val{seqObj: intVal(probe), loObj: intVal(lo), hiObj: intVal(hi)}}
+				elem := func(seq int64, tag string) *Val {
+					return &Val{Tag: tag, Fields: map[string]*Val{"v": {Fields: map[string]*Val{"Seq": intVal(seq)}}}}
+				}
+				env.Hook = func(env *Env, e ast.Expr) (*Val, bool) {
+					if env.Pkg != fi.Pkg {
+						return nil, false
+					}
+					if x, ok := e.(*ast.IndexExpr); ok && objOf(info, x.X) == arrObj {
+						iv := env.eval(x.Index)
+						if iv == nil || iv.C == nil {
+							env.fail(e, "index not evaluable")
+						}
+						switch iv.C.ExactString() {
+						case fmt.Sprint(mid):
+							return &Val{Ptr: elem(a, "arr[n]")}, true
+						case fmt.Sprint(mid + 1):
+							if last {
+								env.fail(e, "arr[n+1] while n is the last index of the window")
+							}
+							return &Val{Ptr: elem(b, "arr[n+1]")}, true
+						}
+						env.fail(e, "index other than n / n+1")
+					}
+					return nil, false
+				}
+				_, exit, err := body.WalkPath(env)
+				action := ""
+				if err != nil {
+					action = "error: " + err.Error()
+				} else {
+					if rs := body.returnStmt(exit); rs != nil && len(rs.Results) == 1 {
+						action = "return " + types.ExprString(rs.Results[0])
+						if ix, ok := ast.Unparen(rs.Results[0]).(*ast.IndexExpr); ok && objOf(info, ix.X) == arrObj {
+							if iv, err := env.Eval(ix.Index); err == nil && iv.C != nil && iv.C.ExactString() == fmt.Sprint(mid) {
+								action = "return arr[n]"
+							}
+						}
+					} else {
+						nl, nh := env.Vars[loObj], env.Vars[hiObj]
+						switch {
+						case nl != nil && nh != nil && nl.C != nil && nh.C != nil && nl.C.ExactString() == fmt.Sprint(lo) && nh.C.ExactString() == fmt.Sprint(mid):
+							action = "left of n"
+						case nl != nil && nh != nil && nl.C != nil && nh.C != nil && nl.C.ExactString() == fmt.Sprint(mid+1) && nh.C.ExactString() == fmt.Sprint(hi):
+							action = "right of n"
+						default:
+							action = fmt.Sprintf("window := [%v, %v)", nl, nh)
+						}
+					}
+				}
+				ord := func(v int64) string {
+					switch {
+					case v < probe:
+						return "before"
+					case v == probe:
+						return "equal"
+					}
+					return "after"
+				}
+				rows = append(rows, row{ord(a), ord(b), last, action})
+				want := ""
+				switch {
+				case a >= probe:
+					want = "left of n"
+				case last || b >= probe:
+					want = "return arr[n]"
+				default:
+					want = "right of n"
+				}
+				if action != want {
+					good = false
+					detail = fmt.Sprintf("arr[n] %s the probe, arr[n+1] %s the probe, n last=%v: the step does '%s', required '%s'", ord(a), ord(b), last, action, want)
+				}
+			}
+		}
+	}
+	r.Tables["search_step_table"] = rows
+	r.Check(good, "C18.a", kBinarySearch+"#step-table", p.pos(loop), fmt.Sprintf("%d rows agree with the specification of one search step", len(rows)), "a step of the snapshot lookup decides wrongly: "+detail)
+	// the window starts as the whole slice
+	initOK := false
+	ast.Inspect(fi.Decl.Body, func(x ast.Node) bool {
+		if as, ok := x.(*ast.AssignStmt); ok && as.Pos() < loop.Pos() && len(as.Lhs) == len(as.Rhs) {
+			loInit, hiInit := false, false
+			for i, l := range as.Lhs {
+				if objOf(info, l) == loObj {
+					if v, ok := constInt(info, as.Rhs[i]); ok && v == 0 {
+						loInit = true
+					}
+				}
+				if objOf(info, l) == hiObj {
+					if c, ok := ast.Unparen(as.Rhs[i]).(*ast.CallExpr); ok && len(c.Args) == 1 && objOf(info, c.Args[0]) == arrObj {
+						if id, ok := c.Fun.(*ast.Ident); ok && id.Name == "len" {
+							hiInit = true
+						}
+					}
+				}
+			}
+			if loInit && hiInit {
+				initOK = true
+			}
+		}
+		return true
+	})
+	r.Check(initOK, "C18.b", kBinarySearch+"#initial-window", p.pos(loop), "the search starts with the window [0, len(arr))", "the search does not start with the whole array as its window")
 }
